@@ -30,9 +30,22 @@ type tprog struct {
 	} `json:"twin"`
 }
 
+// labels: literals, "long40", or "L<n>": n pattern bytes (lengths around the SHA-256 block and padding boundaries: a label is staged,
+// buffered and hashed like any other input); a twin's trailing primes stay literal bytes behind the pattern
 func labelBytes(l string) []byte {
-	if l == "long40" {
-		return []byte(strings.Repeat("0123456789", 4))
+	base := strings.TrimRight(l, "'")
+	primes := l[len(base):]
+	if base == "long40" {
+		return append([]byte(strings.Repeat("0123456789", 4)), primes...)
+	}
+	if strings.HasPrefix(base, "L") && len(base) > 1 {
+		if n, err := strconv.Atoi(base[1:]); err == nil {
+			b := make([]byte, n)
+			for i := range b {
+				b[i] = byte('A' + (i*11+n)%53)
+			}
+			return append(b, primes...)
+		}
 	}
 	return []byte(l)
 }
